@@ -30,7 +30,9 @@ PROPS = {f"C{i:02d}": {"modules": [f"IclModel.Props.C{i:02d}"]} for i in range(1
 # properties whose statement is assembled from the theorems of other property files
 PROPS["C01"]["modules"] += ["IclModel.Props.C01Rec", "IclModel.Props.C01Walk", "IclModel.Props.C02", "IclModel.Props.C03"]
 # the writer walk translated from writer.go = the record sequence the build / framing theorems speak about
-PROPS["C06"]["modules"] += ["IclModel.Props.C01Walk"]
+PROPS["C06"]["modules"] += ["IclModel.Props.C01Walk", "IclModel.Props.C06Build"]
+# Bundle.build translated from bundle.go = the build model the walk-completeness theorems speak about
+PROPS["C09"]["modules"] += ["IclModel.Props.C06Build"]
 PROPS["C08"]["modules"] += ["IclModel.Props.C01Walk"]
 
 
